@@ -290,6 +290,23 @@ func init() {
 		ex.callValue(args[0], nil, site)
 		return false
 	})
+	reg(rt+"Snapshot", func(ex *Exec, fn *ssa.Function, args []Value, site string) Value {
+		a := args[0].(Iface)
+		ex.snaps = append(ex.snaps, ex.snapshot(a.V, a.T, 0))
+		return int64(len(ex.snaps) - 1)
+	})
+	reg(rt+"SameAsSnapshot", func(ex *Exec, fn *ssa.Function, args []Value, site string) Value {
+		a := args[1].(Iface)
+		return lower(ex.snapEq(ex.snaps[args[0].(int64)], ex.snapshot(a.V, a.T, 0)))
+	})
+	reg(rt+"Havoc", func(ex *Exec, fn *ssa.Function, args []Value, site string) Value {
+		if ex.concreteMode() {
+			return nil
+		}
+		a := args[0].(Iface)
+		ex.havoc(a.V, a.T, map[*Value]bool{}, 0)
+		return nil
+	})
 	reg(rt+"Freeze", func(ex *Exec, fn *ssa.Function, args []Value, site string) Value {
 		ex.mon.freeze(ex, args[0].(string), sliceVals(args[1]))
 		return nil
